@@ -260,6 +260,23 @@ func TestCodec(t *testing.T) {
 		res.Count(fmt.Sprintf("rewrite-sequence-length:%d", n))
 		writeSeq(ms)
 	}
+	// large tables (the server holds hundreds of locks): files beyond store.Read's 512-byte minimum buffer
+	nLarge := 6
+	if common.Thorough() {
+		nLarge = 40
+	}
+	for i := 0; i < nLarge; i++ {
+		big := smap{}
+		for s := 1 + rng.Intn(6); s > 0; s-- {
+			ls := []cl.Lock{}
+			for k := 8 + rng.Intn(40); k > 0; k-- {
+				ls = append(ls, cl.New(fmt.Sprintf("lock-%d", rng.Intn(1000)), fmt.Sprintf("%08x-key", rng.Intn(1<<30)), int32(1+rng.Intn(3))))
+			}
+			big[fmt.Sprintf("session-%d-%d", i, s)] = ls
+		}
+		res.Count("large-table")
+		writeSeq([]smap{big})
+	}
 	// checkpoint: what the write/read-back monitor found survives a decoder that ends the process
 	// (out of memory is not recoverable) in the parts below
 	res.Note("checkpoint written after the write/read-back part")
@@ -306,6 +323,38 @@ func TestCodec(t *testing.T) {
 	step := nv / nCorruptBase
 	if step == 0 {
 		step = 1
+	}
+	for i := 0; i < nv; i++ {
+		// large files: the tail (every cut of 1-24 bytes, corruptions of the last 12 bytes) and a few
+		// random positions; every position would be too many
+		b := cases[i].bytes
+		if len(b) < 500 || cases[i].kind != "valid" {
+			continue
+		}
+		res.Count("large-file-damaged")
+		pos := []int{}
+		for k := 1; k <= 24; k++ {
+			cases = append(cases, caseRec{kind: "truncated", bytes: b[:len(b)-k]})
+		}
+		for k := 1; k <= 12; k++ {
+			pos = append(pos, len(b)-k)
+		}
+		for k := 0; k < 12; k++ {
+			j := rng.Intn(len(b))
+			pos = append(pos, j)
+			cases = append(cases, caseRec{kind: "truncated", bytes: b[:j]})
+		}
+		for _, j := range pos {
+			for _, v := range []byte{0x00, 0x01, 0xff, b[j] + 1} {
+				if v == b[j] {
+					continue
+				}
+				c := bytes.Clone(b)
+				c[j] = v
+				cases = append(cases, caseRec{kind: "corrupted", bytes: c})
+			}
+		}
+		cases = append(cases, caseRec{kind: "extended", bytes: append(bytes.Clone(b), 0x01)})
 	}
 	for i := 0; i < nv; i += step {
 		b := cases[i].bytes
